@@ -270,7 +270,23 @@ class Gen:
 
     def group_stage(self, nested):
         rng = self.rng
-        if not nested:
+        if not nested and rng.random() < 0.2:
+            # group with two parallel input devices feeding a common output device (input_override)
+            a = self.mk_simple([], ('handler', 'processor'))
+            b = self.mk_simple([], ('handler', 'processor', 'buffer'))
+            c = self.mk_simple([a, b], ('handler', 'processor', 'buffer'))
+            members = [a, b, c]
+            self.in_group.update(members)
+            gid = self.add({'id': self.nid('GR'), 'kind': 'group', 'members': members, 'inputs': [a, b]})
+        elif not nested and rng.random() < 0.15:
+            # one input device, two parallel output devices (output_override)
+            a = self.mk_simple([], ('handler', 'processor', 'buffer'))
+            b = self.mk_simple([a], ('handler', 'processor'))
+            c = self.mk_simple([a], ('handler', 'processor', 'buffer'))
+            members = [a, b, c]
+            self.in_group.update(members)
+            gid = self.add({'id': self.nid('GR'), 'kind': 'group', 'members': members, 'outputs': [b, c]})
+        elif not nested:
             members = self.group_chain(rng.choice([1, 1, 2, 3]))
             gid = self.add({'id': self.nid('GR'), 'kind': 'group', 'members': members})
         else:
